@@ -410,6 +410,38 @@ def random_poly2(rng, s=None):
     raise RuntimeError("no admissible poly2 point found")
 
 
+def random_poly2_thick(rng, s=None):
+    """Two-field points with smaller thermal-mass coefficients: T_c >= 1.6 mu_h, walls of
+    L*T_n ~ 2-3 instead of ~1 (the thin-wall points of random_poly2 often end in the
+    start-dependent pressure iteration recorded under C08)."""
+    g = float(rng.choice([40, 80, 106.75]))
+    a = g * math.pi ** 2 / 90
+    for _ in range(40000):
+        lh, ls = float(rng.uniform(0.05, 0.3)), float(rng.uniform(0.05, 0.6))
+        lhs = float(rng.uniform(0.3, 3.0))
+        ch, cs = float(rng.uniform(0.03, 0.3)), float(rng.uniform(0.03, 0.3))
+        mus2 = float(rng.uniform(0.3, 1.6))
+        spec = {"family": "poly2", "a": a, "muh2": 1.0, "ch": ch, "lh": lh, "mus2": mus2,
+                "cs": cs, "ls": ls, "lhs": lhs,
+                "s": float(10 ** rng.uniform(-2, 2)) if s is None else s}
+        pot = build_potential({**spec, "s": 1.0})
+        Tc = pot.Tc()
+        if not np.isfinite(Tc) or Tc < 1.6:
+            continue
+        lo_l, hi_l = pot.exists("low")
+        lo_h, hi_h = pot.exists("high")
+        if not (lo_l < 0.6 * Tc and hi_l > 1.3 * Tc and lo_h < 0.6 * Tc and hi_h > 1.3 * Tc):
+            continue
+        if not pot.V_phase("low", 0.9 * Tc) < pot.V_phase("high", 0.9 * Tc):
+            continue
+        Tn = Tc * float(rng.uniform(0.85, 0.97))
+        if not 0.008 < alpha_estimate(pot, Tn) < 0.2:
+            continue
+        spec["Tn_over_s"] = Tn
+        return spec
+    raise RuntimeError("no admissible thick poly2 point found")
+
+
 def random_bag1(rng, s=None):
     g = float(rng.choice([20, 40, 80]))
     a = g * math.pi ** 2 / 90
